@@ -207,3 +207,10 @@ def guards(acc, tier):
     if len(acc.outcomes) < 100:
         msgs.append('fewer than 100 distinct outcomes')
     return msgs
+
+
+def unit_test(case):
+    if case['fam'] != 'top':
+        return None
+    items = [10 * i + c for i, c in enumerate(case['seq'])]
+    return harness.unit_test_api([['split', case['pred'], [['to_list']]]], items, runs(items, opspecs.F(case['pred'])))
